@@ -160,6 +160,17 @@ def c08(tier, seed):
 @register("C09")
 def c09(tier, seed):
     def extra(rep):
+        # single reports through a fresh updater: anything the specification does not class Synchronized publishes Unknown
+        out = os.path.join(cb.WORK, "cls_C09.ndjson")
+        res = djson(["class", "--out", out], timeout=900)
+        r = cb.tlc("ClassTable", "ClassTable.cfg", "cls_C09", workers=1, timeout=900, env={"CLS": out})
+        bad = bad_ids(r.out, "BADPUB0")
+        rep.evaluations += res["rows"]
+        rep.notes.append(f"class table through a fresh updater: {res['rows']} rows, {len(bad)} publishing trust without a measurement")
+        for i in bad[:3]:
+            v = line_by_id(out, i)
+            rep.violation("trust-before-first-measurement", f"first report after start (leap {v.get('leap')}, reference time {v.get('pos')}, interval {v.get('interval')} s) is not synchronised by specification, yet status {v.get('pub0')} was published", {"kind": "class", "row": v})
+        os.remove(out)
         # the pinned behaviour, in the model: with the FSM status published as is, TLC finds the counterexample
         r = daemon_mc(rep, "presync_fsm", dict(MCQ, policy="fsm", polls=2, ticks=1, starts=1), invariants=["NoTrustBeforeMeasure"], properties=())
         rep.notes.append(f"model with PreSyncPolicy = fsm (publish whatever the FSM holds): NoTrustBeforeMeasure {'violated as expected' if r.violated else 'NOT violated (unexpected)'}")
@@ -267,6 +278,8 @@ def c10(tier, seed):
     for i in badpub[:5]:
         v = line_by_id(out, i)
         rep.violation("published-status", f"leap status {v.get('leap')}, reference time {v.get('pos')}: published statuses {v.get('pub')} from prior states U/S/F", {"kind": "class", "row": v})
+    for x in res.get("seq_bad", [])[:3]:
+        rep.violation("classification-depends-on-history", f"two reports with the same reference time: {x}", {"kind": "class-seq", "case": x})
     with open(out) as f:
         for i, line in enumerate(f):
             v = json.loads(line)
@@ -308,6 +321,11 @@ def c07(tier, seed):
     # error bound of THAT report, whatever later reports carry
     b, n = daemon_cover(rep, "phc", COVERS["phc"])
     drifts = daemon_replay(rep, b, {"C07", "C08"}, "Daemon cover phc (PHC term across report sequences)")
+    rr = djson(["refid"], timeout=120)
+    rep.evaluations += len(rr["rows"])
+    rep.notes.append(f"refid / PHC file: {len(rr['rows'])} cases (configured id through the CLI parser vs reported id; unreadable PHC files)")
+    for v in rr["violations"][:3]:
+        rep.violation(v["signature"], v["what"], {"kind": "refid", "rows": rr["rows"]})
     for x in res["phc_bad"][:3]:
         rep.violation("phc-not-added", f"published bound {x['published_bound']} != extract_bound {x['extract_bound']} + PHC {x['phc']}", {"kind": "bound", "case": x})
     for x in res["status_bad"][:3]:
@@ -361,10 +379,11 @@ def c19(tier, seed):
     rep.rule = "boundary table of --max-drift-rate values (absent, 0, 1, 50, 2^31/1000 +-1, 4294966, 4294967 = largest representable, 4294968, 2^32-1) + seeded random; one real daemon start each; distinct by value"
     binary = build_release_daemon()
     rnd = random.Random(seed)
-    vals = [None, 0, 1, 50, 2147483, 2147484, 4294966, 4294967, 4294968, 4294969, 8589934, 4294967295]
+    vals = [None, 0, 1, 50, 999999, 1000000, 2147483, 2147484, 4294966, 4294967, 4294968, 4294969, 8589934, 4294967295,
+            4294967296, 18446744073709551, 18446744073709552, 18446744073709553, 2 ** 64 - 1, 2 ** 64]
     vals += [rnd.randrange(0, 4294967) for _ in range(3 if tier == "quick" else 20)] + [rnd.randrange(4294968, 2 ** 32) for _ in range(3 if tier == "quick" else 20)]
     with ThreadPoolExecutor(max_workers=12) as ex:
-        runs = list(ex.map(lambda iv: ns_run(binary, 4, [] if iv[1] is None else ["--max-drift-rate", str(iv[1])], f"c19_{iv[0]}"), list(enumerate(vals))))
+        runs = list(ex.map(lambda iv: ns_run(binary, 15, [] if iv[1] is None else ["--max-drift-rate", str(iv[1])], f"c19_{iv[0]}"), list(enumerate(vals))))
     out = os.path.join(cb.WORK, "drf_C19.ndjson")
     with open(out, "w") as f:
         for i, (v, d) in enumerate(zip(vals, runs)):
